@@ -239,6 +239,16 @@ def canon_rel(term, truth=True):
     return (rel, a, b)
 
 
+def expand_bool(term, truth):
+    """[(atom, truth)] implied by `term == truth`: conjunctions that hold and disjunctions that fail split into their
+    members, negations flip"""
+    if term[0] == "un" and term[1] == "Not":
+        return expand_bool(term[2], not truth)
+    if term[0] == "bin" and ((term[1] == "LAnd" and truth) or (term[1] == "LOr" and not truth)):
+        return expand_bool(term[2], truth) + expand_bool(term[3], truth)
+    return [(term, truth)]
+
+
 class Guards:
     """switch blocks of a body with their condition terms"""
 
@@ -464,6 +474,12 @@ class Guards:
                 r2, w2 = self.callee_success_conditions(sw, vals, depth)
                 rels.extend(r2)
                 raw.extend(w2)
+                for c, truth in self.presence_conditions(sw, vals):
+                    for c2, t2 in expand_bool(c, truth):
+                        raw.append((c2, t2, sw))
+                        r = canon_rel(c2, t2)
+                        if r:
+                            rels.append(r)
                 continue
             if vals == [0]:
                 truth = False
@@ -478,7 +494,43 @@ class Guards:
             r = canon_rel(t, truth)
             if r:
                 rels.append(r)
+            for c2, t2 in expand_bool(t, truth):
+                if (c2, t2) != (t, truth):
+                    raw.append((c2, t2, sw))
+                    r = canon_rel(c2, t2)
+                    if r:
+                        rels.append(r)
         return rels, raw
+
+    def presence_conditions(self, sw, vals):
+        """[(condition, truth)] implied by the edge of a test of an Option/Result whose presence is a condition —
+        `cond.then_some(v)`, `cond.then(|| v)`, also behind `ok_or(..)` / `?`: on the Some/Ok/Continue edge the condition
+        holds, on the None/Err/Break edge (a single condition) it does not"""
+        t = sw["term"]
+        x = t[1] if t[0] == "discr" else None
+        while x is not None and x[0] in ("cf",):
+            x = x[1]
+        if x is None or x[0] != "opt" or len(x) < 3 or not x[2]:
+            return []
+        preds = [c[1] for c in x[2] if c[0] == "pred"]
+        if len(preds) != len(x[2]):
+            return []
+        variants, adt_, place = discr_variants(self.body, sw["block"])
+        if not variants:
+            return []
+        names = dict(variants)
+        listed = set(v for v, _ in self.body.blocks[sw["block"]]["term"]["targets"])
+        got = set()
+        for v in vals:
+            if v == "otherwise":
+                got |= set(n for vv, n in variants if vv not in listed)
+            else:
+                got.add(names.get(v))
+        if got and got <= {"Ok", "Some", "Continue"}:
+            return [(c, True) for c in preds]
+        if got and got <= {"Err", "None", "Break"} and len(preds) == 1:
+            return [(preds[0], False)]
+        return []
 
 
 def foralls_at(g, block):
@@ -791,10 +843,36 @@ def inlined_envs(ev, root_env, max_depth=4):
                 seen.add((key, body.key, bi))
                 args = [ev.operand(env, a, (bi, None)) for a in t["args"]]
                 cenv = ev.inline_env(ev.facts.bodies[key], {i + 1: x for i, x in enumerate(args)}, env.depth + 1, env.path + ((body.key, bi),))
+                if cenv.parent is None:
+                    cenv.parent = env
                 out.append((cenv.body, cenv))
                 rec(cenv, depth + 1)
     rec(root_env, 0)
     return out
+
+
+def returned_only_if(ev, body, env, local):
+    """an error value built eagerly as the argument of `recv.ok_or(E)` (the only consumer of `local`) is handed on only
+    when `recv` is absent: [(condition, truth)] that then hold — for `cond.then_some(v).ok_or(E)` / `cond.then(..)`
+    [(cond, False)] — or None when the value is not consumed that way"""
+    from flow import consumers
+    cons = consumers(body, local)
+    if len(cons) != 1 or cons[0]["kind"] != "call" or cons[0]["cid"].rsplit("::", 1)[-1] != "ok_or":
+        return None
+    t = cons[0]["term"]
+    if len(t["args"]) != 2:
+        return None
+    recv = ev.operand(env, t["args"][0], (cons[0]["block"], None))
+    if recv[0] == "opt" and len(recv) >= 3 and len(recv[2]) == 1:
+        c = next(iter(recv[2]))
+        if c[0] == "pred":
+            return [(c[1], False)]
+    return None
+
+
+def unconditional_constructor(body, block):
+    """the block lies on every path through the body (a private helper that only builds a value: `fn mismatch(a, b) -> Error`)"""
+    return all(body.must_pass(0, [x], {block}) for x in body.exits()) if body.exits() else False
 
 
 # --------------------------------------------------------------------------- #
